@@ -788,6 +788,60 @@ fn part_b<E: Elem + Clone, N: ArrayLength>(st: &mut Stats, seed: u64, runs: u64)
     }
 }
 
+
+// ------------------------------------------------------------------ part C: Debug with many elements left
+
+/// Debug must show exactly the remaining elements however many there are: the output contains
+/// the slice's own rendering of what is left (under the same flags), for positions near both
+/// ends of long arrays.
+fn part_c<N: ArrayLength>(st: &mut Stats) {
+    let n = N::USIZE;
+    let mut pos: Vec<(usize, usize)> = vec![(0, n), (1, n), (0, n.saturating_sub(1)), (n / 2, n), (0, n / 2), (n, n)];
+    for k in [31usize, 32, 33, 34, 64, 65] {
+        if k <= n {
+            pos.push((0, k));
+            pos.push((n - k, n));
+        }
+    }
+    pos.sort();
+    pos.dedup();
+    for (f, b) in pos {
+        if f > b {
+            continue;
+        }
+        st.check_case("C06", "debug.long", "u32", || format!("C06 debug.long C u32 N={n} pos=({f},{b})"), b > f, || {
+            let mut it = GA::<u32, N>::generate(|i| 1000 + 7 * i as u32).into_iter();
+            for _ in 0..f {
+                it.next();
+            }
+            for _ in 0..(n - b) {
+                it.next_back();
+            }
+            let rest: Vec<u32> = it.as_slice().to_vec();
+            let checks = [
+                (format!("{:?}", it), format!("{:?}", &rest[..])),
+                (format!("{:x?}", it), format!("{:x?}", &rest[..])),
+                (format!("{:08?}", it), format!("{:08?}", &rest[..])),
+            ];
+            for (got, want) in checks {
+                if !got.contains(&want) {
+                    return Err(format!("DebugMismatch: {} elements remain; output ends {:?}, the slice's ends {:?}", rest.len(), &got[got.len().saturating_sub(40)..], &want[want.len().saturating_sub(40)..]));
+                }
+            }
+            // pretty form: every remaining element on its own line, in order, nothing else numeric
+            let pretty = format!("{:#?}", it);
+            let nums: Vec<u32> = pretty.lines().filter_map(|l| l.trim().trim_end_matches(',').parse::<u32>().ok()).collect();
+            if nums != rest {
+                return Err(format!("DebugMismatch: {{:#?}} lists {} elements, {} remain", nums.len(), rest.len()));
+            }
+            if it.len() != rest.len() {
+                return Err("LenMismatch: formatting disturbed the iterator".into());
+            }
+            Ok(())
+        });
+    }
+}
+
 macro_rules! lens_a {
     ($args:expr, $st:expr, [$($v:literal),*]) => {
         $( if $v <= $args.maxn {
@@ -814,6 +868,18 @@ fn main() {
     let mut st = Stats::new("iterq", &args);
     if args.part_on("A") {
         lens_a!(args, &mut st, [0, 1, 2, 3, 4, 5, 6, 7, 8]);
+    }
+    if args.part_on("C") && args.flavour_on("u32") {
+        part_c::<U<0>>(&mut st);
+        part_c::<U<1>>(&mut st);
+        part_c::<U<9>>(&mut st);
+        part_c::<U<32>>(&mut st);
+        part_c::<U<33>>(&mut st);
+        part_c::<U<40>>(&mut st);
+        part_c::<U<100>>(&mut st);
+        part_c::<U<1024>>(&mut st);
+        part_c::<generic_array::typenum::Sum<generic_array::typenum::U1024, generic_array::typenum::U1>>(&mut st);
+        part_c::<generic_array::typenum::U4096>(&mut st);
     }
     if args.part_on("B") {
         let runs = args.budget.unwrap_or(if args.thorough() { 20000 } else { 300 });
